@@ -5,6 +5,7 @@
 # workloads changed, every stored change must still be caught.
 BASE=$(cd "$(dirname "$0")" && pwd)
 REPO=${VERIF_REPO:?set VERIF_REPO to a scratch checkout}
+mkdir -p "$BASE/.work"
 for d in "$BASE"/seeded/S*/; do
   s=$(basename "$d"); own=$(echo "$s" | sed 's/^S[0-9]*-\(C[0-9]*\)-.*/\1/')
   others=$(python3 -c "import json,sys;m=json.load(open(sys.argv[1]));print(' '.join(x for x in m.get('caught_by_quick_checks',[]) if x!=sys.argv[2]))" "$d/meta.json" $own)
